@@ -17,7 +17,7 @@ structure AInv (s : St) : Prop where
   pre : s.spc.preAbort = true → s.fwds = []
   ex : s.exited.isSome = true → s.spc = .exiting ∧ s.exited = some 1
 
-theorem ainv_init (v : Variant) (f n : Nat) (b : Bool) (t0 : Nat) : AInv (init v f n b t0) := by
+theorem ainv_init (v : Variant) (g : Bool) (f n : Nat) (b : Bool) (t0 : Nat) : AInv (init v g f n b t0) := by
   refine ⟨?_, ?_, ?_⟩ <;> simp [init]
 
 theorem readingUpTo_congr {ts ts' : List TS} (h : ∀ j, ts'.getD j .new = ts.getD j .new) (k : Nat) :
@@ -61,7 +61,7 @@ theorem readingUpTo_fwd (ts : List TS) (k h : Nat) (hk : k ≤ h) (hr : ts.getD 
 
 /-- a worker step while the signals thread holds thd_mutex does not write `t[].state` -/
 theorem w_no_write {s : St} {i : Nat} {a : WAct} {p q : WP} (hm : MInv s) (hthd : s.thd = .s)
-    (hw : WFacts s i a p q) : wWrite a p (tsAt s i) = tsAt s i := by
+    (hw : WFacts s i a p q) : wWrite s.g a p (tsAt s i) = tsAt s i := by
   obtain ⟨hi, hpci, hn, hgT, hgO⟩ := hw
   have ⟨tp, _⟩ := tbl_holdsT hn
   have hnl : a ≠ .lockT := by intro hc; have := hgT hc; rw [hthd] at this; cases this
@@ -111,19 +111,19 @@ theorem ainv_step {s s' : St} {l : Label} (h : Inv s) (ha : AInv s) (hs : step s
     · have hk' : s.spc = .fwding k := by simpa [wEffect_spc] using hk
       have hthd : s.thd = .s := h.m.thdS1 (by rw [hk']; rfl)
       have hnw := w_no_write h.m hthd hw
-      have hf : (wEffect i { s with ws := s.ws.set i q, ts := s.ts.set i (wWrite a p (tsAt s i)) } a).fwds = s.fwds := by
+      have hf : (wEffect i { s with ws := s.ws.set i q, ts := s.ts.set i (wWrite s.g a p (tsAt s i)) } a).fwds = s.fwds := by
         cases a <;> rfl
-      have hts' : ∀ j, tsAt (wEffect i { s with ws := s.ws.set i q, ts := s.ts.set i (wWrite a p (tsAt s i)) } a) j =
+      have hts' : ∀ j, tsAt (wEffect i { s with ws := s.ws.set i q, ts := s.ts.set i (wWrite s.g a p (tsAt s i)) } a) j =
           tsAt s j := by
         intro j
-        rw [tsAt_after (s := s) (a := a) (q := q) (x := wWrite a p (tsAt s i)) hlen j]; split
+        rw [tsAt_after (s := s) (a := a) (q := q) (x := wWrite s.g a p (tsAt s i)) hlen j]; split
         · subst_vars; exact hnw
         · rfl
       exact hf.trans ((a1 k hk').trans (readingUpTo_congr hts' k).symm)
-    · have hf : (wEffect i { s with ws := s.ws.set i q, ts := s.ts.set i (wWrite a p (tsAt s i)) } a).fwds = s.fwds := by
+    · have hf : (wEffect i { s with ws := s.ws.set i q, ts := s.ts.set i (wWrite s.g a p (tsAt s i)) } a).fwds = s.fwds := by
         cases a <;> rfl
       rw [hf]; exact a2 (by simpa [wEffect_spc] using hp)
-    · have : (wEffect i { s with ws := s.ws.set i q, ts := s.ts.set i (wWrite a p (tsAt s i)) } a).exited = s.exited := by
+    · have : (wEffect i { s with ws := s.ws.set i q, ts := s.ts.set i (wWrite s.g a p (tsAt s i)) } a).exited = s.exited := by
         cases a <;> rfl
       exact (hex this hc).elim
   | s a =>
@@ -214,8 +214,8 @@ theorem ainv_exec {s0 s : St} {ls : List Label} (h0 : Inv s0) (a0 : AInv s0) (he
   | nil => exact a0
   | snoc he' hs ih => exact ainv_step (inv_exec h0 he') ih hs
 
-theorem ainv_reach {v f n b t0 s} (h : Reach v f n b t0 s) : AInv s := by
-  obtain ⟨ls, he⟩ := h; exact ainv_exec (inv_init v f n b t0) (ainv_init v f n b t0) he
+theorem ainv_reach {v g f n b t0 s} (h : Reach v g f n b t0 s) : AInv s := by
+  obtain ⟨ls, he⟩ := h; exact ainv_exec (inv_init v g f n b t0) (ainv_init v g f n b t0) he
 
 /-- rank of the abort path: the number of operations the signals thread still performs before `exit` -/
 def arank (s : St) : Nat :=
